@@ -74,7 +74,7 @@ impl IntrinsicBuilder<'_> {
     ) -> Result<Vec<Sp<LowerArg>>, ErrorReported> {
         // full pattern match to fail when new fields are added
         let &IntrinsicInstrAbiParts {
-            num_instr_args, plain_args: ref plain_args_info,
+            num_instr_args, padding: ref padding_info, plain_args: ref plain_args_info,
             outputs: ref outputs_info, jump: ref jump_info, sub_id: sub_id_info,
         } = abi_parts;
         // check that the caller's 'build' closure put all of the right things for this intrinsic
@@ -113,8 +113,10 @@ impl IntrinsicBuilder<'_> {
             out_args[index] = Some(var);
         }
 
-        // all options should be Some(_) now
-        Ok(out_args.into_iter().map(|x| x.expect("arg was not filled in! (bug)")).collect::<Vec<_>>())
+        // all options other than padding should be Some(_) now
+        Ok(out_args.into_iter().enumerate()
+            .filter(|(index, _)| !padding_info.contains(index))
+            .map(|(_, x)| x.expect("arg was not filled in! (bug)")).collect::<Vec<_>>())
     }
 }
 
